@@ -9,12 +9,13 @@ from ..sysmodel import build, observe, g
 PROP = "C10"
 IOS = [[0.3], [0.1, 0.5], [0.0, 0.2, 0.9], [0.05, 0.1, 0.4, 1.0]]
 VIS = [[2.5, 5.0], [1.0, 3.3, 12.0]]
-CARRIERS = ["conv-eff", "vloss-vdrop", "linreg-ig", "pswitch-ig", "pmux-ig", "rect-ig", "rect-vdrop"]
+CARRIERS = ["conv-eff", "vloss-vdrop", "linreg-ig", "pswitch-ig", "pmux-ig", "rect-ig", "rect-vdrop", "rect-vdrop/igtab"]
+IGTAB = {"vi": [3.0, 30.0], "io": [0.05, 2.0], "ig": [[0.011, 0.013], [0.017, 0.019]]}   # a second table on the same Rectifier (ignored by a diode bridge)
 VALS = {"eff": [0.55, 0.8, 0.95], "vdrop": [0.05, 0.1, 0.2], "ig": [1e-4, 5e-4, 2e-3]}
 
 
 def zkey(carrier):
-    return carrier.split("-")[1]
+    return carrier.split("-")[1].split("/")[0]
 
 
 def carrier_comp(carrier, table, pol):
@@ -33,6 +34,9 @@ def carrier_comp(carrier, table, pol):
         return dict(k="Rectifier", a=dict(vdrop=0.0, rs=0.0, ig=table, iq=1e-3))
     if carrier == "rect-vdrop":
         return dict(k="Rectifier", a=dict(vdrop=table))
+    if carrier == "rect-vdrop/igtab":
+        import copy
+        return dict(k="Rectifier", a=dict(vdrop=table, ig=copy.deepcopy(IGTAB)))
 
 
 def probe(carrier, table, Vq, Iq):
@@ -53,7 +57,7 @@ def probe(carrier, table, Vq, Iq):
         val = abs(vout * iout / (vin * iin)) if iin else float("nan")
     elif carrier == "vloss-vdrop":
         val = abs(vin) - abs(vout)
-    elif carrier == "rect-vdrop":
+    elif carrier.startswith("rect-vdrop"):
         val = (abs(vin) - abs(vout)) / 2.0
     else:
         val = iin - iout
@@ -133,6 +137,17 @@ def tables(tier, z):
         a, b, c = vals
         out.append({"vi": [2.5, 5.0], "io": [0.0, 0.2, 0.9], z: [[0.0, b, c], [a, c, b]]})
         out.append({"vi": [1.0, 3.3, 12.0], "io": [0.1, 0.5], z: [[a, 0.0], [0.0, b], [c, a]]})
+    # tables written with Python ints (axes, values, or both): slopes between integer samples are not integers
+    if z == "vdrop":
+        out.append({"vi": [24], "io": [1, 2, 3, 4], z: [[0, 1, 3, 4]]})
+        out.append({"vi": [24.0], "io": [1.0, 2.0, 3.0, 4.0], z: [[0, 1, 3, 4]]})
+        out.append({"vi": [24], "io": [1, 2, 4], z: [[0.25, 1.0, 1.5]]})
+        out.append({"vi": [10, 20], "io": [1, 3], z: [[0, 1], [1, 3]]})
+    if z == "ig":
+        out.append({"vi": [24], "io": [1, 2, 4], z: [[0, 1, 2]]})
+        out.append({"vi": [10, 20], "io": [1, 3], z: [[0, 1], [1, 2]]})
+    if z == "eff":
+        out.append({"vi": [24], "io": [1, 2, 4], z: [[1, 1, 1]]})
     if z == "ig":  # micro-amp scale io axes (absolute epsilons in the clamping code would show here)
         for io in ([1e-6, 2e-6, 4e-6], [1e-7, 3e-7, 5e-7]):
             # 1-D only: a 2-D table with a micro-amp io axis next to a volt-scale vi axis is not "well-conditioned" in the sense of the
@@ -147,7 +162,7 @@ def readback(carrier, r):
         return abs(vout * iout / (vin * iin)) if iin else float("nan")
     if carrier == "vloss-vdrop":
         return abs(vin) - abs(vout)
-    if carrier == "rect-vdrop":
+    if carrier.startswith("rect-vdrop"):
         return (abs(vin) - abs(vout)) / 2.0
     return iin - iout
 
@@ -305,7 +320,9 @@ def check_case(case):
 def gen_cases(tier):
     carriers = CARRIERS
     for carrier in carriers:
-        for t in tables(tier, zkey(carrier)):
+        for j, t in enumerate(tables(tier, zkey(carrier))):
+            if "/" in carrier and tier == "quick" and j % 5:   # the two-table Rectifier: every 5th table of the menu in the quick tier
+                continue
             yield dict(carrier=carrier, table=t, tier=tier)
     yield from gen_pairs(tier)
     for tv in ([2e-9, 6e-9, 11e-9], [9e-9, 3e-9, 1e-9], [5e-9, 5e-9, 5.5e-9]):
